@@ -34,7 +34,16 @@ def main() -> int:
         res = []
         for spec in json.loads(line):
             try:
-                res.append(reg.get_hash(V.build(spec)))
+                v = V.build(spec)
+                h = reg.get_hash(v)
+                # the key the backend records the value under (record_value hashes the serialised bytes)
+                vi = reg.get_value(v)
+                hr = vi.get_hash(data=vi.serialize())
+                if hr != h:
+                    res.append({"exc": "RecordedHashDiffers", "msg": f"get_hash(v)={h[:10]} but get_value(v).get_hash(data=serialize())={hr[:10]} "
+                                "(the hash a value is recorded under is not its argument/result hash)", "where": "value.py:get_hash(data)"})
+                else:
+                    res.append(h)
             except Exception as e:  # noqa: BLE001
                 res.append({"exc": type(e).__name__, "msg": str(e)[:300], "where": redun_frame(e)})
         out.write(json.dumps(res) + "\n")
